@@ -1,7 +1,7 @@
 (* C16 -- property theorems only.  Proofs live in C16/Proofs*.v. *)
 From Coq Require Import NArith List.
 From DV Require Import Base.Outcome Base.Bytes C16.Gen C16.Model C16.ProofsNeg C16.ProofsTrunc
-  C16.ProofsFrame C16.ProofsSrv C16.ProofsTop C16.ProofsC02.
+  C16.ProofsFrame C16.ProofsSrv C16.ProofsTop C16.ProofsC02 C16.ProofsWide.
 Import ListNotations.
 Local Open Scope N_scope.
 
@@ -256,3 +256,120 @@ Theorem C16_built_pipeline_splits : forall ss, Forall built ss ->
   split_frames (S (length ss)) (concat (map C02.Model.stream_of ss)) = (map C02.Model.msg_of ss, []).
 Proof. exact built_pipeline. Qed.
 Print Assumptions C16_built_pipeline_splits.
+
+(* ---- widening round: pipelined requests, reply header, which path answers ---- *)
+(* pipelined well-formed request frames (QR clear: to the service; QR set: a direct
+   FORMERR) are delivered exactly once each, in order, for every chunking, and the
+   connection stays open *)
+Theorem C16_pipeline_delivered_once : forall ms chunks, Forall is_msg ms ->
+  concat chunks = concat (map frame ms) ->
+  exists st, conn_chunks conn_init chunks = (st, map ev_of ms) /\ c_open st = true.
+Proof. exact pipeline_exact. Qed.
+Print Assumptions C16_pipeline_delivered_once.
+
+(* ... and whatever follows them on the connection (garbage, a short frame, an
+   abort mid-frame) does not take them back *)
+Theorem C16_pipeline_prefix_survives : forall ms junk chunks, Forall is_msg ms ->
+  concat chunks = concat (map frame ms) ++ junk ->
+  exists rest, snd (conn_chunks conn_init chunks) = map ev_of ms ++ rest.
+Proof. exact pipeline_prefix. Qed.
+Print Assumptions C16_pipeline_prefix_survives.
+
+(* every response, on every path: QR set, RD copied from the request *)
+Theorem C16_udp_server_header : forall x cfg svc r, udp_server x cfg svc = Ok (Some r) ->
+  N.testbit (m_b2 r) 7 = true /\ N.testbit (m_b2 r) 0 = N.testbit (x_b2 x) 0.
+Proof. exact top_udp_server_hdr. Qed.
+Print Assumptions C16_udp_server_header.
+
+Theorem C16_tcp_server_header : forall x idle svc r, tcp_server x idle svc = Ok (Some r) ->
+  N.testbit (m_b2 r) 7 = true /\ N.testbit (m_b2 r) 0 = N.testbit (x_b2 x) 0.
+Proof. exact top_tcp_server_hdr. Qed.
+Print Assumptions C16_tcp_server_header.
+
+(* whenever the service produced a response or failed, something is sent *)
+Theorem C16_udp_server_answers : forall x cfg svc, svc <> SvcNone ->
+  exists r, udp_server x cfg svc = Ok (Some r).
+Proof. exact top_udp_server_answers. Qed.
+Print Assumptions C16_udp_server_answers.
+
+Theorem C16_tcp_server_answers : forall x idle svc,
+  (exists r, tcp_server x idle svc = Ok r) /\
+  (svc <> SvcNone -> exists r, tcp_server x idle svc = Ok (Some r)).
+Proof. exact top_tcp_server_answers. Qed.
+Print Assumptions C16_tcp_server_answers.
+
+(* a request that is not rejected: the datagram server is the service's result
+   passed through the middleware response path *)
+Theorem C16_udp_server_served : forall x cfg svc, reject_rcode x = None ->
+  udp_server x cfg svc =
+  match svc with
+  | SvcOk m => do r <- udp_response (x_base x) cfg m; Ok (Some r)
+  | SvcErr rc => Ok (Some (error_response_gen true (x_base x) rc))
+  | SvcNone => Ok None
+  end.
+Proof. exact top_udp_server_served. Qed.
+Print Assumptions C16_udp_server_served.
+
+(* a rejected request (reply received as request, IQUERY, QDCOUNT > 1, several /
+   unparseable OPT, EDNS version > 0): one error reply with that rcode, the
+   request's id and first question, whatever the service would do *)
+Theorem C16_udp_server_rejects : forall x cfg svc rc,
+  hint_ok cfg -> Forall wf_q (firstn 1 (x_qs x)) -> reject_rcode x = Some rc ->
+  exists r, udp_server x cfg svc = Ok (Some r) /\ err_reply x rc r.
+Proof. exact top_udp_server_rejects. Qed.
+Print Assumptions C16_udp_server_rejects.
+
+(* size / TC discipline at the level of the whole datagram server *)
+Theorem C16_udp_server_served_discipline : forall x cfg m r,
+  hint_ok cfg -> mlen m <= 65535 -> reject_rcode x = None ->
+  udp_server x cfg (SvcOk m) = Ok (Some r) ->
+  mlen r <= text_limit (x_client x) cfg /\
+  (tc_set (m_b2 r) = true <->
+   (text_limit (x_client x) cfg < mlen (edns_post (is_some (x_client x)) m) \/ tc_set (m_b2 m) = true)) /\
+  (exists rest, m_qs m = m_qs r ++ rest) /\
+  ((m_an r <> m_an m \/ m_ns r <> m_ns m) -> tc_set (m_b2 r) = true).
+Proof. exact top_udp_server_served_discipline. Qed.
+Print Assumptions C16_udp_server_served_discipline.
+
+(* the stream server never truncates: question, answer, authority, rcode, TC and
+   the non-OPT additional records of the service's response leave as they are *)
+Theorem C16_tcp_server_served : forall x idle svc, reject_rcode_tcp x = None ->
+  match svc with
+  | SvcOk m => exists r, tcp_server x idle svc = Ok (Some r) /\ stream_kept x m r
+  | SvcErr rc => tcp_server x idle svc = Ok (Some (error_response_gen true (x_base x) rc))
+  | SvcNone => tcp_server x idle svc = Ok None
+  end.
+Proof. exact top_tcp_server_served. Qed.
+Print Assumptions C16_tcp_server_served.
+
+Theorem C16_tcp_server_rejects : forall x idle svc rc, reject_rcode_tcp x = Some rc ->
+  exists r, tcp_server x idle svc = Ok (Some r) /\ err_reply x rc r.
+Proof. exact top_tcp_server_rejects. Qed.
+Print Assumptions C16_tcp_server_rejects.
+
+(* a datagram end to end: any octets the model reads as a request (no records, no
+   compression pointers), any service behaviour, any configured limit - what is sent
+   back has the request's id, QR set, RD copied, and at most 512 octets; the
+   premise on the question's well-formedness is discharged by the parser *)
+Theorem C16_dgram_end_to_end : forall d cfg svc x r,
+  wf_bytes d -> hint_ok cfg -> (forall m, svc = SvcOk m -> mlen m <= 65535) ->
+  xreq_of_datagram d = Some x -> udp_server x cfg svc = Ok (Some r) ->
+  mlen r <= 512 /\ m_id r = x_id x /\
+  (N.testbit (m_b2 r) 7 = true /\ N.testbit (m_b2 r) 0 = N.testbit (x_b2 x) 0).
+Proof. exact top_dgram_end_to_end. Qed.
+Print Assumptions C16_dgram_end_to_end.
+
+(* the questions read from received octets are well-formed *)
+Theorem C16_parsed_questions_wellformed : forall n w, wf_bytes w ->
+  Forall wf_q (parse_questions_prefix n w).
+Proof. exact parse_prefix_wf. Qed.
+Print Assumptions C16_parsed_questions_wellformed.
+
+(* the octets a connection writes for any sequence of answered requests split back
+   into exactly the responses: one correctly framed message each, in order *)
+Theorem C16_tcp_responses_framed : forall (qs : list tcp_req) (rs : list msg),
+  Forall2 tcp_answered qs rs ->
+  Forall (fun r => frame_out (wire_msg r) = Ok (frame (wire_msg r))) rs /\
+  split_frames (S (length rs)) (concat (map (fun r => frame (wire_msg r)) rs)) = (map wire_msg rs, []).
+Proof. exact tcp_responses_framed. Qed.
+Print Assumptions C16_tcp_responses_framed.
